@@ -80,7 +80,7 @@ def gen_feasible_problem(rng, convex=None, n=None, m=None):
     return p
 
 
-def gen_alm_op(rng, stack=None, force_iso=False, **over):
+def gen_alm_op(rng, stack=None, force_iso=False, force_ws=False, **over):
     stack = stack or rng.choice(STACKS)
     convex = rng.random() < 0.7
     cnewton = stack.endswith('-cnewton')
@@ -108,10 +108,10 @@ def gen_alm_op(rng, stack=None, force_iso=False, **over):
             pass
         extra.update(L0=f2h(0.95 * q * (1.0 if force_iso else rng.choice([1.0, 1.0, 0.5]))),
                      eager='1' if force_iso else str(rng.choice([1, 1, 0])))
-    if rng.random() < 0.3:
+    if rng.random() < 0.3 or force_ws:
         # the problem supplies its own fused ψ / ∇ψ and scribbles over the work vectors
         extra['wmscratch'] = '1'
-        if stack == 'fista' and rng.random() < 0.7:
+        if stack == 'fista' and (rng.random() < 0.7 or force_ws):
             # fixed step size (L_min = L_max): a valid Lipschitz bound of ∇ψ for the drawn penalties is not
             # known in advance; a large one keeps FISTA convergent on these small problems
             extra['Lmin'] = extra['Lmax'] = f2h(rng.choice([64.0, 256.0, 1024.0]))
@@ -375,6 +375,12 @@ def main(argv):
         for k in range(24):
             ops.append(gen_alm_op(fixed, stack=['panoc-lbfgs', 'panoc-slbfgs', 'panoc-anderson', 'panoc-noop',
                                                 'zerofpr-lbfgs', 'zerofpr-noop'][k % 6], force_iso=True).line())
+        # second fixed class: problems with their own fused ψ / ∇ψ that scribble over the work vectors, FISTA in its
+        # fixed-step mode among them — a solver that reads a workspace as ŷ is exposed on every seed
+        fixed2 = random.Random(20240931)
+        for k in range(16):
+            ops.append(gen_alm_op(fixed2, stack=['fista', 'panoc-lbfgs', 'fista', 'zerofpr-lbfgs', 'fista',
+                                                 'pantr-newtontr', 'fista', 'panoc-noop'][k % 8], force_ws=True).line())
         for k in range(n):
             ops.append(gen_alm_op(rng, stack=STACKS[k % len(STACKS)]).line())
         for k in range(max(60, n // 10)):
@@ -399,11 +405,15 @@ def main(argv):
 
     return C.standard_check(
         'C01', argv,
-        gen_scripts=['gen_c15.py', 'gen_c06.py', 'gen_c05.py', 'gen_c07.py', 'gen_c04.py', 'gen_c01.py'],
-        modules=['Alpaqa.Props.C01', 'Alpaqa.Props.C01_Alm'], driver=None,
+        # gen_c09 / gen_c10 / gen_dirs: Props/C01_C04 (OracleContract for every C04 provider mix) instantiates the
+        # inner contract with the four shipped direction providers (Props/DirectionsLoop)
+        gen_scripts=['gen_c15.py', 'gen_c06.py', 'gen_c05.py', 'gen_c07.py', 'gen_c04.py', 'gen_c01.py',
+                     'gen_c09.py', 'gen_c10.py', 'gen_dirs.py'],
+        modules=['Alpaqa.Props.C01', 'Alpaqa.Props.C01_Alm', 'Alpaqa.Props.C01_C04'], driver=None,
         extra_sources=['Alpaqa/Gen/C15.lean', 'Alpaqa/Gen/C06.lean', 'Alpaqa/Gen/C01.lean', 'Alpaqa/Proofs/VecLemmas.lean',
                        'Alpaqa/Proofs/C01Panoc.lean', 'Alpaqa/Proofs/PanocFuel.lean', 'Alpaqa/Proofs/PanocSized.lean', 'Alpaqa/Proofs/C07.lean', 'Alpaqa/Proofs/C07Run.lean',
-                       'Alpaqa/Proofs/PanocInv.lean', 'Alpaqa/Model/Panoc.lean', 'Alpaqa/Model/C07.lean'],
+                       'Alpaqa/Proofs/PanocInv.lean', 'Alpaqa/Model/Panoc.lean', 'Alpaqa/Model/C07.lean', 'Alpaqa/Props/C04.lean',
+                       'Alpaqa/Props/DirectionsLoop.lean'],
         harness_name='almrun', harness_sources=[], harness_builder=lambda: (exe, log),
         gen_ops=gen_ops, monitor=monitor, nontrivial=nontrivial, extra_stage=extra_stage,
         n_quick=120, n_thorough=12000,
